@@ -3,7 +3,8 @@
  * generated parser/lexer, which includes main.c), compiled here under ASan/UBSan with `main` renamed
  * (-Dmain=ptgpp_main on the command line of the check), so that every generated program also runs
  * through an instrumented copy of the compiler.  Nothing is re-implemented: this file only adds
- *   - a watchdog (a hang of the compiler is a result, not a timeout of the check),
+ *   - a watchdog on CPU time (an endless loop of the compiler is a result, not a timeout of the check; CPU
+ *     time, not wall time: the machine may be heavily loaded),
  *   - a canonical last line `#ptgpp-exit <status>` on stderr for normal exits.
  *
  *   usage: C24 <parsec-ptgpp arguments>
@@ -13,6 +14,7 @@
 #include <stdlib.h>
 #include <unistd.h>
 #include <signal.h>
+#include <sys/time.h>
 
 extern int ptgpp_main(int argc, char *argv[]);
 
@@ -27,8 +29,9 @@ static void on_alarm(int s)
 int main(int argc, char *argv[])
 {
     int rc;
-    signal(SIGALRM, on_alarm);
-    alarm(40);
+    struct itimerval it = { {0, 0}, {60, 0} };
+    signal(SIGPROF, on_alarm);
+    setitimer(ITIMER_PROF, &it, NULL);
     rc = ptgpp_main(argc, argv);
     fflush(stdout);
     fprintf(stderr, "#ptgpp-exit %d\n", rc);
